@@ -1,4 +1,53 @@
 TEXTS = {
+    "C01": {
+        "text": "Machine-checked Lean 4 theorem C01_holds (no wiring hypothesis): every run of the actor model whose "
+                "message numbers and operation ids are fresh (wf01, a decidable trace predicate checked on every real "
+                "trace) - any number of client tasks and handle kinds, both submission paths, unbounded or bounded "
+                "mailbox of any capacity, timers, restarts, every interleaving - is accepted by monC01, all five "
+                "clauses: handler invocations never overlap; a message is handled at most once; when handle(m2) begins, "
+                "every message whose submission had completed before m2's submission began has been handled (FIFO "
+                "across handles and paths); a reply carries its own message and the fold of everything handled up to "
+                "the end of its handler; a joined value carries the fold of exactly the handled messages in order. "
+                "Invariant QInv over the mailbox: no duplicates, disjoint from handled, every 'before' message is "
+                "handled or strictly ahead in the queue; sigma.hlog = s.log.",
+        "design_ref": "DESIGN.md §5 C01",
+        "note": "Trusted: Lean kernel + axioms; futures-channel FIFO modelled in Model/Chan.lean and validated by trace "
+                "acceptance; the freshness hypothesis is checked per trace (monWf01).",
+        "technique": "Lean 4 proof (queue-order invariant by induction over all runs) + checked trace correspondence",
+    },
+    "C02": {
+        "text": "Machine-checked Lean 4 theorem C02_holds: for every wiring whose loop notifies after stopped(), every "
+                "run of the actor model with fresh operation ids is accepted by monC02: no operation returns twice; an "
+                "Ok reply is the one produced by the completed handler invocation of the call's own message (never "
+                "swapped, duplicated or invented); operations begun after termination complete with an error (awaits: "
+                "an error unless the termination was graceful; joins: None or the value); and at every quiescent "
+                "point nothing hangs: no operation is pending on a terminated actor and on a live one only waits for "
+                "its termination are. Invariant WaitInv: a pending call/ping has its payload in the queue or is the "
+                "slot of the running invocation, a pending halt/consume has its stop queued or the loop has left; "
+                "fail/finish cancel every queued slot. The monitor is split exactly (C02_split): the remaining clause "
+                "'a late await returns Ok after a graceful end' is proved under noCancelAfterStopped (C02t_holds) and "
+                "checked directly on real traces.",
+        "design_ref": "DESIGN.md §5 C02",
+        "note": "Partial: monC02t (one clause) is conditional in the proof, unconditional on traces. Trusted: Lean "
+                "kernel + axioms; oneshot reply channels modelled as op states, validated by trace acceptance.",
+        "technique": "Lean 4 proof (op-table / mailbox coupling invariant, quiescence lemma) + checked trace correspondence",
+    },
+    "C06": {
+        "text": "Machine-checked Lean 4 theorems for the single-actor part of C06: C06_holds (for every wiring whose loop "
+                "notifies after stopped()): in every run of the actor model - every failure kind (start error or "
+                "panic, handler or stopped panic, timeout with fail_on_timeout, cancellation) at every position - after "
+                "the failure no callback begins, after failure and termination no timer fires, re-arms or ticks, "
+                "awaiting / halt return an error, join / consume return None or an error, an Ok reply only for a call "
+                "begun before the failure whose handler completed, a ping begun after it never returns Ok, and at "
+                "quiescence all timer tasks have ended; C06q_holds: at quiescence after a failure no operation is "
+                "pending (fresh operation ids); C06s_holds: a send begun after the failed actor's task is gone never "
+                "returns Ok; monC06_split: monC06 and monC06t together accept exactly what the one-piece formulation "
+                "accepts.",
+        "design_ref": "DESIGN.md §5 C06",
+        "note": "Partial: the send clause between failure and task end is trace-checked only (false of the model, "
+                "which separates the two events); multi-actor clauses via C08 / C16 and per-actor acceptance.",
+        "technique": "Lean 4 proof (failed-phase / latch / op-state invariants) + checked trace correspondence with fault injection",
+    },
     "C08": {
         "text": "Machine-checked Lean 4 theorem C08_holds: if the registry decides liveness from the termination latch "
                 "itself and already_running maps the entry through `running` (WellWired08: both facts are re-extracted "
@@ -225,5 +274,5 @@ TEXTS = {
 _PENDING = "check under construction in this round: model + theorem not yet wired into ./check (see DESIGN.md build order); not claimed until its three obligations run end to end"
 NOT_APPLICABLE = [
     {"property_id": p, "reason": _PENDING}
-    for p in ["C01", "C02", "C06", "C09", "C16"]
+    for p in ["C09", "C16"]
 ]
